@@ -14,6 +14,7 @@ type Limits struct {
 	MaxPaths      int
 	Deadline      time.Time
 	MaxViolations int
+	MaxWitnesses  int
 }
 
 // Report aggregates an exploration of one harness.
@@ -35,6 +36,7 @@ type Report struct {
 	UnsupportedMsgs map[string]int
 	UnwindMsgs      map[string]int
 	Notes      map[string]int
+	Witnesses  []*Violation
 }
 
 type SolverStats struct {
@@ -127,6 +129,21 @@ func Explore(p *Program, fn *ssa.Function, workers int, cfg Config, lim Limits) 
 			}
 			defer m.Close()
 			m.funcsSeen = map[*ssa.Function]int{}
+			m.WantSample = func() bool {
+				mu.Lock()
+				defer mu.Unlock()
+				n := rep.Paths + 1
+				if len(rep.Witnesses) >= lim.MaxWitnesses {
+					return false
+				}
+				// log-spaced sampling of passing paths
+				for _, k := range []int{1, 3, 10, 30, 100, 300, 1000, 3000, 10000, 30000, 100000} {
+					if n == k {
+						return true
+					}
+				}
+				return false
+			}
 			for {
 				item, ok := q.pop()
 				if !ok {
@@ -156,6 +173,9 @@ func Explore(p *Program, fn *ssa.Function, workers int, cfg Config, lim Limits) 
 				}
 				if res.Violation != nil {
 					rep.Violations = append(rep.Violations, res.Violation)
+				}
+				if res.Witness != nil {
+					rep.Witnesses = append(rep.Witnesses, res.Witness)
 				}
 				if res.Sample != "" && len(rep.Samples) < 6 && res.Kind == EndOK {
 					rep.Samples = append(rep.Samples, res.Sample)
